@@ -8,7 +8,7 @@ CONSTANTS
   MaxEnv = 1
   OutShapes <- ShapesTwo
   KeepHist = TRUE
-  MaxHist = 4
+  MaxHist = 3
   NoIdle = TRUE
 INVARIANTS TypeOK EmitMaximal
 CHECK_DEADLOCK FALSE
